@@ -2,6 +2,7 @@
 package main
 
 import (
+	"go/token"
 	"fmt"
 	"go/types"
 	"strconv"
@@ -427,7 +428,65 @@ func concStr(m *M, v Value) (string, bool) {
 	return s.s, s.conc
 }
 
+// sync/atomic: goroutines run to completion between blocking points, so an atomic operation is a plain load / store that
+// does not take part in the footprint race check (atomic accesses never race with each other; a plain access to the same
+// word elsewhere is still recorded there and would be compared with nothing - stated in DESIGN.md 9.2).
+func atomicLoad(m *M, fn *ssa.Function, a []Value) Value {
+	p := m.force(a[0]).(Ptr)
+	if p.obj == nil {
+		panic(goPanic{msg: "invalid memory address or nil pointer dereference"})
+	}
+	return copyVal(*m.slot(p))
+}
+func atomicStoreRaw(m *M, p Ptr, v Value) {
+	if p.obj == nil {
+		panic(goPanic{msg: "invalid memory address or nil pointer dereference"})
+	}
+	if m.merging > 0 {
+		panic(mergeAbort{"atomic store"})
+	}
+	*m.slot(p) = copyVal(v)
+}
+func atomicStore(m *M, fn *ssa.Function, a []Value) Value {
+	atomicStoreRaw(m, m.force(a[0]).(Ptr), a[1])
+	return nil
+}
+func atomicSwap(m *M, fn *ssa.Function, a []Value) Value {
+	p := m.force(a[0]).(Ptr)
+	old := atomicLoad(m, fn, a)
+	atomicStoreRaw(m, p, a[1])
+	return old
+}
+func atomicAdd(m *M, fn *ssa.Function, a []Value) Value {
+	p := m.force(a[0]).(Ptr)
+	old := atomicLoad(m, fn, a)
+	nv := m.binop(token.ADD, old, m.force(a[1]), token.NoPos)
+	atomicStoreRaw(m, p, nv)
+	return nv
+}
+func atomicCAS(m *M, fn *ssa.Function, a []Value) Value {
+	p := m.force(a[0]).(Ptr)
+	old := atomicLoad(m, fn, a)
+	if m.branch(m.valEq(old, m.force(a[1]))) {
+		atomicStoreRaw(m, p, a[2])
+		return cBool(true)
+	}
+	return cBool(false)
+}
+
 func init() {
+	for _, t := range []string{"Int32", "Int64", "Uint32", "Uint64", "Uintptr", "Pointer"} {
+		t := t
+		defer func() {
+			nativeModels["sync/atomic.Load"+t] = atomicLoad
+			nativeModels["sync/atomic.Store"+t] = atomicStore
+			nativeModels["sync/atomic.Swap"+t] = atomicSwap
+			nativeModels["sync/atomic.CompareAndSwap"+t] = atomicCAS
+			if t != "Pointer" {
+				nativeModels["sync/atomic.Add"+t] = atomicAdd
+			}
+		}()
+	}
 	nativeModels = map[string]handler{
 		"(*sync.WaitGroup).Add": func(m *M, fn *ssa.Function, a []Value) Value {
 			m.sched.wg(a[0].(Ptr)).n += int(m.force(a[1]).(Int).signed())
